@@ -120,18 +120,36 @@ def render(entry, feats, secret, rng, style):
     return doc, lambda r: r == ["d.hds"]
 
 
-def consume(entry, text, work, encoding):
+def _handle(text, how):
+    """The document as a caller hands it over: a text stream, or a binary one (a file opened "rb", a tar member)."""
+    if how == "binary":
+        return io.BytesIO(text.encode("utf-8"))
+    if how == "binary-buffered":
+        return io.BufferedReader(io.BytesIO(text.encode("utf-8")))
+    return io.StringIO(text)
+
+
+def consume(entry, text, work, encoding, how="text", preopen=None):
     if entry == "ovf":
         from dissect.hypervisor.descriptor.ovf import OVF
-        return list(OVF(io.StringIO(text)).disks())
+        return list(OVF(_handle(text, how)).disks())
     if entry == "vbox":
         from dissect.hypervisor.descriptor.vbox import VBox
-        return list(VBox(io.StringIO(text)).disks())
+        return list(VBox(_handle(text, how)).disks())
     if entry == "pvs":
         from dissect.hypervisor.descriptor.pvs import PVS
-        return list(PVS(io.StringIO(text)).disks())
+        return list(PVS(_handle(text, how)).disks())
     from dissect.hypervisor.disk.hdd import Descriptor
     p = Path(work) / "DiskDescriptor.xml"
+    if preopen is not None:
+        # the same path held a benign descriptor of exactly the same size a moment ago, and it was opened
+        pad = len(text.encode(encoding)) - len(preopen.encode(encoding))
+        if pad >= 7:
+            p.write_bytes((preopen + "<!--" + "x" * (pad - 7) + "-->").encode(encoding))
+            try:
+                Descriptor(p)
+            except Exception:  # noqa: BLE001
+                pass
     if encoding == "utf-8":
         p.write_text(text, encoding="utf-8")
     else:
@@ -143,7 +161,9 @@ def consume(entry, text, work, encoding):
 STYLES = [{"in_attr": False}, {"in_attr": True}, {"in_attr": False, "pad": 3000}, {"in_attr": True, "pad": 70000}]
 # off-standard document shapes (still "any document" in the property's sense): for these only the refusal of entity
 # declarations and the absence of fetches / hangs is asserted - what a benign document of that shape parses to is not
-SHAPES = [{"shape": "no-namespace"}, {"shape": "legacy-namespace", "in_attr": True}, {"shape": "nul-tail"}, {"shape": "nul-tail-sector", "in_attr": True},
+SHAPES = [{"shape": "binary-handle", "how": "binary"}, {"shape": "binary-buffered-handle", "how": "binary-buffered", "in_attr": True},
+          {"shape": "same-path-same-size-after-benign", "preopen": True}, {"shape": "same-path-same-size-after-benign-attr", "preopen": True, "in_attr": True},
+          {"shape": "no-namespace"}, {"shape": "legacy-namespace", "in_attr": True}, {"shape": "nul-tail"}, {"shape": "nul-tail-sector", "in_attr": True},
           {"shape": "nul-mid"}, {"shape": "bom"}, {"shape": "ws-tail", "in_attr": True}, {"shape": "pad-64k-1", "pad": 65536 - 60},
           {"shape": "pad-64k+1", "pad": 65536 + 1, "in_attr": True}, {"shape": "pad-1m", "pad": 1 << 20}, {"shape": "version-1.1"},
           {"shape": "standalone"}, {"shape": "crlf", "in_attr": True}, {"shape": "upper-root-comment"}]
@@ -201,7 +221,7 @@ def run(ctx):
     try:
         for st in sts:
             feats = set(st["feats"])
-            for style in ((STYLES + SHAPES) if thorough else rng.sample(STYLES, 2) + rng.sample(SHAPES, 3)):
+            for style in ((STYLES + SHAPES) if thorough else rng.sample(STYLES, 2) + rng.sample(SHAPES, 9)):
                 encs = ["utf-8"] + (["utf-16", "latin-1"] if st["entry"] == "hdd" else [])
                 for enc in (encs if thorough else [rng.choice(encs)]):
                     text, benign_ok = render(st["entry"], feats, secret, rng, style)
@@ -219,7 +239,10 @@ def run(ctx):
                     tracemalloc.reset_peak()
                     verdict, res, err = "parsed", None, ""
                     try:
-                        res = consume(st["entry"], text, work, enc)
+                        pre = None
+                        if style.get("preopen") and st["entry"] == "hdd":
+                            pre = render(st["entry"], set(), secret, rng, {"in_attr": False})[0]
+                        res = consume(st["entry"], text, work, enc, how=style.get("how", "text"), preopen=pre)
                     except diskcheck.Hang:
                         verdict = "hang"
                     except Exception as e:  # noqa: BLE001
